@@ -125,6 +125,34 @@ def compile_harness(src, out, sources, link_target=None, extra_objs=(), cflags="
     return out
 
 
+LIB_MODE_TEXT = {
+    "io": "substdio input (buffers 1..9 x streams <=10 bytes x every read-size schedule x EINTR/error variants x 8 consumer patterns incl. getln), "
+          "substdio output (short writes, a failing write at every call), substdio_copy return codes",
+    "bytes": "byte_copy/byte_copyr at every overlap, byte_chr/rchr, str_*/case_* on every string <=4 over {a,B,z,Z,@,[,`,{,NUL}, case folding of all 256 bytes",
+    "num": "fmt_ulong/fmt_uint0/scan_ulong round trips on boundary values, scan_ulong/scan_8long on every digit string <=3 followed by every byte",
+    "map": "constmap on all 256 subsets of 8 keys (empty key, case twins, colon data) x 17 probes, split on/off",
+    "cdb": "cdb_seek on a 9-record database (duplicate and high-byte keys): intact, one failing read at every call, every truncation",
+    "ctl": "control_readfile/readline/readint/rldef on every short file body, absent and unreadable files, with/without control/me",
+}
+
+
+def lib_conformance(res, rd, src, modes, tier, asan):
+    """Library conformance (seq/c00_lib.c): the shared primitives this property's programs rest on, exhaustively over small domains
+    against trivial references.  A boundary slip there shows only for inputs that hit the boundary (a read returning exactly
+    buffer-size-1 bytes, the letter Z, a control file without a final newline), which program-level enumerations may not contain."""
+    extra = [w for w in ["cdb.a", "cdbmss.o", "cdbmake.a"] if w not in load_line(src, "qmail-send")]
+    exe = compile_harness(src, os.path.join(rd, "c00lib"), [os.path.join(VERIF, "seq/c00_lib.c")], link_target="qmail-send", extra_objs=extra, asan=asan)
+    jobs = []
+    for m in modes:
+        if m == "ctl":
+            d = os.path.join(rd, "libctl"); os.makedirs(d, exist_ok=True)
+            jobs.append(("%s ctl %s %d" % (exe, d, 4 if tier == "quick" else 5), "library: control files"))
+        else:
+            jobs.append(("%s %s" % (exe, m), "library: " + m))
+    res.run_parallel(jobs, timeout=1800)
+    res.rule += "; library conformance (seq/c00_lib.c): " + "; ".join(LIB_MODE_TEXT[m] for m in modes)
+
+
 # ---------------------------------------------------------------------------------------------
 # known findings
 
